@@ -34,7 +34,7 @@
 typedef struct { unsigned char id[32]; unsigned version, suite; unsigned char ms[48]; } sess_rec;
 typedef struct { uint16_t cs[16]; size_t ncs; unsigned vmin, vmax; } side_cfg;
 
-enum { EXP_FULL = 0, EXP_ABBR = 1, EXP_FAIL = 2, EXP_UNJUDGED = 3 };
+enum { EXP_FULL = 0, EXP_ABBR = 1, EXP_FAIL = 2, EXP_UNJUDGED = 3, EXP_NOT_ABBR = 4 };
 
 static struct {
 	tp_pair P;
@@ -61,11 +61,14 @@ static struct {
 	long long seed;
 	long idx;
 	int var;
+	int mismatch;            /* the two sides remember another suite / version under the offered ID (tampering) */
 	char steps[600];
 } G;
 
 static long long n_sessions, n_abbr, n_full, n_failed_expected, n_unjudged, n_ambiguous;
 static long long n_cmp_ms, n_cmp_rand, n_cmp_first, n_data, n_cmp_kind, n_wire_agree, n_model_loads, n_model_saves;
+static long long n_mismatch, n_mismatch_failed, n_mismatch_full, n_mismatch_nohit, n_store_tampered;
+static long long n_aborted, n_aborted_lookup, n_aborted_cut[3], n_aborted_early;
 
 #define RV(mon, what)  do { char k_[160]; snprintf(k_, sizeof k_, "resume:%s", (mon)); TP_VIOL(k_, (what)); } while (0)
 
@@ -207,6 +210,13 @@ run_session(int j, const side_cfg *C, const side_cfg *S, int resume, prep *pr,
 		if (G.aliveT ? hT : hR) why = why_held;
 	}
 	if (expect_fail && exp == EXP_ABBR) exp = EXP_FAIL;
+	if (G.mismatch) {
+		/* the server would resume (it holds the ID, its remembered suite and version are acceptable to both sides),
+		   but the client remembers another suite or version under that ID: a full handshake or a failure, never
+		   an abbreviated handshake */
+		n_mismatch ++;
+		if (exp == EXP_ABBR && !ambiguous) exp = EXP_NOT_ABBR; else n_mismatch_nohit ++;
+	}
 
 	/* ---- run ---- */
 	mk_cfg(&cc, 0, C);
@@ -248,6 +258,7 @@ run_session(int j, const side_cfg *C, const side_cfg *S, int resume, prep *pr,
 			exp == EXP_ABBR ? "abbreviated" : "full",
 			br_ssl_engine_last_error(G.P.c.eng), br_ssl_engine_last_error(G.P.s.eng));
 		if (exp == EXP_FAIL) { n_failed_expected ++; }
+		else if (exp == EXP_NOT_ABBR) { n_failed_expected ++; n_mismatch_failed ++; }
 		else if (exp == EXP_UNJUDGED || (ambiguous && (expT == EXP_UNJUDGED || expR == EXP_UNJUDGED))) { n_unjudged ++; }
 		else RV("handshake-failed", what);
 		goto out;
@@ -268,6 +279,18 @@ run_session(int j, const side_cfg *C, const side_cfg *S, int resume, prep *pr,
 	if (exp == EXP_FAIL) {
 		RV("completed-with-wrong-master-secret", "handshake completed although the client's remembered master secret was altered");
 		goto out;
+	}
+	if (exp == EXP_NOT_ABBR) {
+		n_cmp_kind ++;
+		if (observed == EXP_ABBR) {
+			char what[260];
+			snprintf(what, sizeof what, "abbreviated handshake completed although the two sides remember different parameters under the offered ID: client now suite %04x version %04x, server now suite %04x version %04x",
+				pc.cipher_suite, pc.version, ps.cipher_suite, ps.version);
+			RV("abbreviated-with-mismatched-memory", what);
+			goto out;
+		}
+		n_mismatch_full ++;
+		exp = EXP_FULL;
 	}
 	if (ambiguous) {
 		/* forget made the two refinements differ: the outcome selects the admissible one */
@@ -413,6 +436,165 @@ out:
 }
 
 /* ------------------------------------------------------------------ */
+/* the entry of a session ID inside the server's store (layout of src/ssl/ssl_lru.c: masked ID 32, master secret 48,
+   version 2, suite 2, links 16; the ID is masked with HMAC(index_key) over its first bytes) */
+
+static long
+store_find(const unsigned char *id)
+{
+	br_hmac_key_context kc;
+	br_hmac_context hc;
+	unsigned char mid[32];
+	size_t off;
+	if (!G.cache_on || !G.lru->init_done) return -1;
+	memcpy(mid, id, 32);
+	br_hmac_key_init(&kc, G.lru->hash, G.lru->index_key, sizeof G.lru->index_key);
+	br_hmac_init(&hc, &kc, 32);
+	br_hmac_update(&hc, id, 32);
+	br_hmac_out(&hc, mid);
+	for (off = 0; off + 100 <= G.lru->store_ptr && off + 100 <= G.store_len; off += 100) {
+		if (memcmp(G.store + off, mid, 32) == 0) return (long)off;
+	}
+	return -1;
+}
+
+/* a suite other than `not_this` that both lists hold (the lists always share two suites usable at every version) */
+static unsigned
+common_suite(const side_cfg *C, const side_cfg *S, unsigned not_this, unsigned version)
+{
+	uint16_t cand[16];
+	size_t n = 0, i;
+	for (i = 0; i < C->ncs; i ++) {
+		const tp_suite_info *si = tp_suite_find(C->cs[i]);
+		if (C->cs[i] == not_this || !in_list(S, C->cs[i])) continue;
+		if (si && si->tls12only && version < 0x0303 && vf_below(&G.r, 4) != 0) continue;   /* mostly suites the version allows */
+		cand[n ++] = C->cs[i];
+	}
+	if (n == 0) return 0;
+	return cand[vf_below(&G.r, (uint32_t)n)];
+}
+
+/* another version than `not_this` inside both ranges, or 0 */
+static unsigned
+common_version(const side_cfg *C, const side_cfg *S, unsigned not_this)
+{
+	unsigned lo = C->vmin > S->vmin ? C->vmin : S->vmin, hi = C->vmax < S->vmax ? C->vmax : S->vmax, v, cand[4], n = 0;
+	for (v = lo; v <= hi; v ++) if (v != not_this) cand[n ++] = v;
+	return n ? cand[vf_below(&G.r, n)] : 0;
+}
+
+/* has the client's ChangeCipherSpec record entered the transport */
+static int
+client_ccs_on_wire(void)
+{
+	const unsigned char *a = G.raw[0];
+	size_t al = G.raw_len[0], off = 0;
+	while (off + 5 <= al) {
+		if (a[off] == 20) return 1;
+		off += 5 + (((size_t)a[off + 3] << 8) | a[off + 4]);
+	}
+	return off < al && a[off] == 20;
+}
+
+/*
+ * A full handshake of client j that never completes: the transport stops before the client's Finished reaches the
+ * server (cut 0: everything from the client's ChangeCipherSpec on is lost; 1: ClientKeyExchange and ChangeCipherSpec
+ * arrive, the Finished is never sent; 2: the Finished arrives short of its last bytes). The connection is then
+ * abandoned (no close; the server context is reset for the next connection, the client context is released).
+ * The server must not have stored that session: a lookup of its ID fails and the cache model is unchanged.
+ */
+static void
+run_aborted(int j, const side_cfg *C, const side_cfg *S, const char *label)
+{
+	tp_cfg cc, sv;
+	prep none;
+	size_t sl = strlen(G.steps);
+	int cut = (int)vf_below(&G.r, 3);
+	long n = 0;
+	br_ssl_session_parameters ps, *pp;
+
+	memset(&none, 0, sizeof none);
+	snprintf(G.steps + sl, sizeof G.steps - sl, " %s%d(c%d)", label, cut, j);
+	snprintf(tp_case, sizeof tp_case, "seed=%lld idx=%ld var=%d key=%d store_len=%zu cache=%d steps=%s | C{v%04x-%04x n=%zu first=%04x} S{v%04x-%04x n=%zu first=%04x}",
+		G.seed, G.idx, G.var, G.keykind, G.store_len, G.cache_on, G.steps,
+		C->vmin, C->vmax, C->ncs, C->cs[0], S->vmin, S->vmax, S->ncs, S->cs[0]);
+	mk_cfg(&cc, 0, C);
+	mk_cfg(&sv, 1, S);
+	cc.resume = 0; cc.reuse_ctx = 1;
+	cc.pre_reset = client_pre_reset; cc.pre_reset_arg = &none;
+	sv.reuse_ctx = 1;
+	G.P.c = G.cl[j];
+	memset(&G.cl[j], 0, sizeof G.cl[j]);
+	G.P.c2s.rd = G.P.c2s.wr = 0; G.P.s2c.rd = G.P.s2c.wr = 0;
+	G.raw_len[0] = G.raw_len[1] = 0;
+	tm_pair_attach(&G.pm, &G.P);
+	G.P.tap = tap; G.P.tap_arg = NULL;
+	if (!tp_ep_start(&G.P.c, &cc) || !tp_ep_start(&G.P.s, &sv)) {
+		RV("reset-failed", "reset returned 0 with a valid configuration");
+		goto out;
+	}
+	G.P.c.tx_key = G.pm.m.key[0] = vf_u64(&G.r);
+	G.P.s.tx_key = G.pm.m.key[1] = vf_u64(&G.r);
+	G.P.c.rx_key = G.pm.m.key[1]; G.P.s.rx_key = G.pm.m.key[0];
+	while (n < 2000000 && !client_ccs_on_wire()) {
+		if (!tp_pump_step(&G.P)) break;
+		n ++;
+	}
+	n_sessions ++;
+	vf_stat("cases", 1);
+	if (!client_ccs_on_wire() || tp_ep_ready(&G.P.s) || tp_ep_closed(&G.P.s) || tp_ep_closed(&G.P.c)) {
+		/* did not get that far (not expected with lists that share a suite) */
+		n_aborted_early ++;
+		RV("handshake-failed", "full handshake stopped before the client's ChangeCipherSpec");
+		goto out;
+	}
+	if (cut == 0) {
+		G.P.c2s.rd = G.P.c2s.wr = 0;
+	} else {
+		size_t keep = 0, len;
+		if (cut == 2) {
+			/* the client emits the rest of its flight; all but the last 1..12 bytes reach the server */
+			while (br_ssl_engine_current_state(G.P.c.eng) & BR_SSL_SENDREC) {
+				br_ssl_engine_sendrec_buf(G.P.c.eng, &len);
+				tp_act_sendrec(&G.P.c, &G.P.c2s, len);
+			}
+			keep = 1 + vf_below(&G.r, 12);
+		}
+		while (tp_fifo_len(&G.P.c2s) > keep && (br_ssl_engine_current_state(G.P.s.eng) & BR_SSL_RECVREC)) {
+			br_ssl_engine_recvrec_buf(G.P.s.eng, &len);
+			if (len > tp_fifo_len(&G.P.c2s) - keep) len = tp_fifo_len(&G.P.c2s) - keep;
+			tp_act_recvrec(&G.P.s, &G.P.c2s, tp_chunk(&G.P.rng, G.P.chunk_policy, len));
+		}
+	}
+	n_aborted ++;
+	n_aborted_cut[cut] ++;
+	if (tp_ep_ready(&G.P.s)) {
+		RV("server-ready-without-client-finished", "server engine offers application data although the client's Finished never arrived");
+		goto out;
+	}
+	/* the ID the server chose for that session */
+	br_ssl_engine_get_session_parameters(G.P.s.eng, &ps);
+	if (ps.session_id_len == 32 && G.cache_on) {
+		int r;
+		pp = vf_dup(&ps, sizeof ps);
+		pp->version = 0xAAAA; pp->cipher_suite = 0xBBBB;
+		memset(pp->master_secret, 0x5C, 48);
+		r = G.lru->vtable->load(&G.lru->vtable, G.P.s.sc, pp);
+		n_aborted_lookup ++;
+		if (r != 0 || store_find(ps.session_id) >= 0) {
+			RV("aborted-handshake-session-cached", "the cache holds the session of a handshake whose client Finished never arrived");
+		}
+		free(pp);
+	}
+out:
+	rm_free(&G.pm.m.rm);
+	/* abandoned as it is: no close_notify, nothing more delivered */
+	G.cl[j] = G.P.c;
+	memset(&G.P.c, 0, sizeof G.P.c);
+	tp_ep_free(&G.cl[j]);
+}
+
+/* ------------------------------------------------------------------ */
 /* scenario */
 
 static void
@@ -490,7 +672,7 @@ cache_setup(int cap, int rem, int on)
 	G.aliveT = G.aliveR = 1;
 }
 
-#define NVAR 24
+#define NVAR 29
 
 static void
 scenario(long long seed, long idx)
@@ -506,7 +688,7 @@ scenario(long long seed, long idx)
 	tp_pair_init(&G.P, (uint64_t)seed, (uint64_t)idx * 11 + 5, (int)(idx % 5));
 	vf_rng_init(&G.r, (uint64_t)seed, 0x3000000 + (uint64_t)idx);
 	G.seed = seed; G.idx = idx; G.var = var;
-	G.nknown = 0; G.nsess = 0; G.steps[0] = 0;
+	G.nknown = 0; G.nsess = 0; G.steps[0] = 0; G.mismatch = 0;
 	memset(&none, 0, sizeof none);
 	memset(&pr, 0, sizeof pr);
 	{
@@ -521,12 +703,13 @@ scenario(long long seed, long idx)
 		on = vf_below(&G.r, 4) != 0;
 	}
 	if (var == 16 || var == 22) cap = 2;
+	if (var == 28) cap = (int)vf_range(&G.r, 1, 2);
 	cache_setup(cap, rem, on);
 	pick_lists(&C1, &S1, anchors);
 	C1.vmin = S1.vmin = 0x0301;
 	C1.vmax = 0x0301 + vf_below(&G.r, 3);
 	S1.vmax = 0x0301 + vf_below(&G.r, 3);
-	if (var == 5 || (var == 6 && vf_below(&G.r, 2))) {
+	if (var == 5 || (var == 6 && vf_below(&G.r, 2)) || var == 25 || var == 27) {
 		/* these need a first version above TLS 1.0 */
 		if (C1.vmax < 0x0302) C1.vmax = 0x0302 + vf_below(&G.r, 2);
 		if (S1.vmax < 0x0302) S1.vmax = 0x0302 + vf_below(&G.r, 2);
@@ -685,6 +868,51 @@ scenario(long long seed, long idx)
 		run_session(1, &C2, &S2, 1, &none, G.known[b].id, 32, 0, 0, "B-resume-forgotten");
 		break;
 	}
+	case 24:  /* the suite remembered by the server altered inside its store (another suite both sides support) */
+	case 25: { /* the version remembered by the server altered inside its store (another version both ranges hold) */
+		long off = store_find(A->id);
+		unsigned x = var == 24 ? common_suite(&C2, &S2, A->suite, A->version) : common_version(&C2, &S2, A->version);
+		if (off < 0) {
+			if (G.cache_on && G.cap > 0) RV("saved-session-not-in-store", "no entry with the masked ID of the session just saved is in the store");
+			break;
+		}
+		if (memcmp(G.store + off + 32, A->ms, 48) != 0 || (unsigned)((G.store[off + 80] << 8) | G.store[off + 81]) != A->version
+			|| (unsigned)((G.store[off + 82] << 8) | G.store[off + 83]) != A->suite)
+		{
+			RV("store-entry-differs", "the store entry of the session does not hold its master secret, version and suite");
+			break;
+		}
+		if (x == 0) { run_session(0, &C2, &S2, 1, &none, A->id, 32, 0, 0, "resume"); break; }
+		G.store[off + (var == 24 ? 82 : 80)] = (unsigned char)(x >> 8);
+		G.store[off + (var == 24 ? 83 : 81)] = (unsigned char)x;
+		n_store_tampered ++;
+		G.mismatch = 1;
+		run_session(0, &C2, &S2, 1, &none, A->id, 32, 0, 0, var == 24 ? "resume-store-suite-altered" : "resume-store-version-altered");
+		G.mismatch = 0;
+		break;
+	}
+	case 26:  /* the client is given another suite / version for the session (br_ssl_engine_set_session_parameters) */
+	case 27: {
+		unsigned x = var == 26 ? common_suite(&C2, &S2, A->suite, A->version) : common_version(&C2, &S2, A->version);
+		int other = (int)vf_below(&G.r, 3) == 0;     /* sometimes through another client context */
+		if (x == 0) { run_session(0, &C2, &S2, 1, &none, A->id, 32, 0, 0, "resume"); break; }
+		br_ssl_engine_get_session_parameters(&G.cl[0].cc->eng, &pr.params);
+		if (var == 26) pr.params.cipher_suite = (uint16_t)x; else pr.params.version = (uint16_t)x;
+		pr.set_params = 1;
+		G.mismatch = 1;
+		run_session(other, &C2, &S2, 1, &pr, A->id, 32, 0, 0, var == 26 ? "resume-client-suite-altered" : "resume-client-version-altered");
+		G.mismatch = 0;
+		break;
+	}
+	case 28: { /* handshakes of another client that never complete, between "A full" and "A resume", capacity 1..2 */
+		int k = 1 + (int)vf_below(&G.r, 3), b = -1;
+		if (cap == 2 && vf_below(&G.r, 2)) b = run_session(1, &C1, &S1, 0, &none, NULL, 0, 0, 0, "B-first");
+		for (i = 0; i < k; i ++) run_aborted(3, &C1, &S1, "aborted-cut");
+		if (b >= 0 && vf_below(&G.r, 2)) run_session(1, &C2, &S2, 1, &none, G.known[b].id, 32, 0, 0, "B-resume");
+		run_session(0, &C2, &S2, 1, &none, A->id, 32, 0, 0, "A-resume");
+		if (b >= 0) run_session(1, &C2, &S2, 1, &none, G.known[b].id, 32, 0, 0, "B-resume");
+		break;
+	}
 	default: { /* a refused resumption leaves a new session that resumes itself */
 		int n;
 		drop_suite(&C2, A->suite);
@@ -736,6 +964,17 @@ main(int argc, char **argv)
 	vf_stat("data_sessions", n_data);
 	vf_stat("model_loads", n_model_loads);
 	vf_stat("model_saves", n_model_saves);
+	vf_stat("mismatch_sessions", n_mismatch);
+	vf_stat("mismatch_failed", n_mismatch_failed);
+	vf_stat("mismatch_full_handshake", n_mismatch_full);
+	vf_stat("mismatch_not_held", n_mismatch_nohit);
+	vf_stat("store_entries_tampered", n_store_tampered);
+	vf_stat("aborted_handshakes", n_aborted);
+	vf_stat("aborted_cut_flight_lost", n_aborted_cut[0]);
+	vf_stat("aborted_cut_no_finished", n_aborted_cut[1]);
+	vf_stat("aborted_cut_finished_truncated", n_aborted_cut[2]);
+	vf_stat("aborted_not_reached", n_aborted_early);
+	vf_stat("cmp_aborted_lookup", n_aborted_lookup);
 	vf_stat("monitored_calls", tp_calls);
 	vf_done();
 	return 0;
